@@ -1157,6 +1157,11 @@ class Network:
 
         # Complete expected response futures
         for expected_response in self._expected_response_futures:
+            # Futures that are completed or cancelled are only removed from the
+            # list during the next iteration of the event loop
+            if expected_response.done():
+                continue
+
             if expected_response.matches(connection, message):
                 expected_response.set_result((connection, message, ))
 
